@@ -347,6 +347,8 @@ class DirectCollocation(SamplingMethod):
                         value = repmat(v[:,k], 1, e_shape[1])
                     else:
                         value = DM(opti.debug.value(hcat([self.eval_at_integrator_root(stage, expr, k, i, j) for j in range(e_shape[1])]), opti_initial))
+                        # Scalar guess for a vector-valued algebraic variable: repeated to fit the shape of var
+                        if value.numel()==e_shape[1] and e_shape[0]>1: value = repmat(ca.reshape(value, 1, e_shape[1]), e_shape[0], 1)
                     opti.set_initial(e[algs[var],:], value)
 
     def to_function(self, stage, name, args, results, *margs):
